@@ -54,6 +54,7 @@ type Driver struct {
 	rot     int
 
 	host        string                    // non-empty: address requests of the current operation to this tenant
+	gtInQuery   bool                      // token requests of the current operation carry grant_type in the URL query
 	respJournal []modelstore.JournalEntry // storage calls made while the requests of the current operation were served
 }
 
@@ -198,7 +199,14 @@ func (d *Driver) get(path string, q url.Values, hdr http.Header) *RawResponse {
 }
 
 func (d *Driver) post(path string, form url.Values, hdr http.Header) *RawResponse {
-	req := httptest.NewRequest(http.MethodPost, Issuer+path, strings.NewReader(form.Encode()))
+	target := Issuer + path
+	if d.gtInQuery && form.Get("grant_type") != "" {
+		// the same request with grant_type in the URL query instead of the body
+		form = cloneValues(form)
+		target += "?grant_type=" + url.QueryEscape(form.Get("grant_type"))
+		form.Del("grant_type")
+	}
+	req := httptest.NewRequest(http.MethodPost, target, strings.NewReader(form.Encode()))
 	req.Header.Set("Content-Type", "application/x-www-form-urlencoded")
 	for k, v := range hdr {
 		req.Header[k] = v
@@ -848,6 +856,7 @@ func (d *Driver) Exec(opName string, a M) M {
 	}
 	d.respJournal = nil
 	d.host = ""
+	d.gtInQuery = B(a, "gtInQuery")
 	if S(a, "host") == "B" {
 		d.host = TenantB
 	}
@@ -858,7 +867,7 @@ func (d *Driver) Exec(opName string, a M) M {
 			j = d.respJournal
 		}
 		for _, e := range j {
-			if e.Err == modelstore.ErrInjected.Error() || e.Err == context.DeadlineExceeded.Error() || e.Err == modelstore.ErrInjectedOIDC.Error() {
+			if e.Fault {
 				out["faulted"] = true
 				out["faultedCall"] = e.Method
 			}
@@ -892,6 +901,9 @@ func (d *Driver) Exec(opName string, a M) M {
 		challengeParams(S(a, "chall"), q)
 		if v := S(a, "prompt"); v != "" {
 			q.Set("prompt", v)
+		}
+		if h := Sub(a, "hint"); S(h, "kind") != "" && S(h, "kind") != "none" {
+			q.Set("id_token_hint", d.HintString(h))
 		}
 		d.authResponse(d.get("/authorize", q, nil), out)
 	case "Login":
@@ -1234,6 +1246,15 @@ func (d *Driver) HintString(h M) string {
 		c["exp"] = time.Now().Add(-time.Hour).Unix()
 		c["iat"] = time.Now().Add(-2 * time.Hour).Unix()
 		return sign(c, d.Store.Signing)
+	case "futureiat":
+		c := cloneM(claims)
+		c["iat"] = time.Now().Add(2 * time.Minute).Unix()
+		c["exp"] = time.Now().Add(time.Hour).Unix()
+		return sign(c, d.Store.Signing)
+	case "noiat":
+		c := cloneM(claims)
+		delete(c, "iat")
+		return sign(c, d.Store.Signing)
 	case "multiaud":
 		// validly signed, issued to the same client (azp), but the audience lists a second client as well
 		c := cloneM(claims)
@@ -1265,6 +1286,14 @@ func (d *Driver) HintString(h M) string {
 		return base64.RawURLEncoding.EncodeToString([]byte(`{"alg":"none","typ":"JWT"}`)) + "." + base64.RawURLEncoding.EncodeToString(b) + "."
 	}
 	return "garbage"
+}
+
+func cloneValues(v url.Values) url.Values {
+	o := url.Values{}
+	for k, x := range v {
+		o[k] = append([]string(nil), x...)
+	}
+	return o
 }
 
 func cloneM(m M) M {
